@@ -20,7 +20,10 @@ RECURSIVE ExpSum(_, _, _, _)
 ExpSum(x, term, i, n) == IF i > n THEN "0" ELSE RAdd(term, ExpSum(x, RDiv(RMul(term, RNeg(x)), RFromInt(i + 1)), i + 1, n))
 \* e^{-x}, 0 <= x <= 6.  The argument is first rounded to 30 decimal places (changes the value by < 1e-30) so that
 \* the forty powers stay small when x comes from recorded floats with 2^-k denominators.
-ExpNeg(x) == ExpSum(RRoundDec(x, 30), "1", 0, 40)
+\* Evaluated by the BigRat override RExpNeg (40 decimal places); spec/RatLaws.tla checks at setup that it agrees with the
+\* Taylor partial sums ExpSum above to 1e-30 on a grid, so the definition of record remains the TLA+ one.
+ExpNegRef(x) == ExpSum(RRoundDec(x, 30), "1", 0, 40)
+ExpNeg(x) == RExpNeg(RRoundDec(x, 30), 40)
 
 \* efficiency and ratio products along the whole chain
 RECURSIVE EffProdTo(_, _)
